@@ -486,6 +486,7 @@ class Directive:
         self.closures = []      # (kv, lines)
         self.inserts = []       # (mode, anchor, lines)
         self.tails = []         # (kv, lines)   R9 tail binding
+        self.rebinds = []       # (param, newname)  R10 parameter rebind
 
 
 def parse_template(text):
@@ -577,6 +578,9 @@ def parse_template(text):
                         d.subs.append((unesc(mm.group(1)), unesc(mm.group(2)), int(mm.group(3) or 1)))
                     elif kw == 'ret':
                         d.ret = arg.strip()
+                    elif kw == 'rebind':
+                        a_, b_ = arg.split()
+                        d.rebinds.append((a_, b_))
                     elif kw == 'attr':
                         d.attrs.append(arg.strip())
                     elif kw in ('spec', 'loop', 'closure', 'insert', 'tail'):
@@ -722,6 +726,16 @@ def lift_one(d, repo, canary=False, rename_suffix=None):
         if tot != cnt:
             raise LiftError("%s: sub %r expected %d occurrence(s), found %d" % (info['name'], old, cnt, tot))
         info['subs'].append({'old': old, 'new': new, 'count': tot})
+
+    # R10 parameter rebind: `fn f(p: T) { body }` -> `fn f(p0: T) { let p = p0; body }` -- same semantics as Rust
+    # shadowing; lets contracts and loop invariants name the original argument when the body shadows `p`
+    for (pname, newname) in d.rebinds:
+        m = re.search(r'(?<![A-Za-z0-9_])' + re.escape(pname) + r'\s*:', sig_l.s)
+        if not m:
+            raise LiftError("%s: rebind: parameter %s not found in signature" % (info['name'], pname))
+        sig_l.replace(m.start(), m.start() + len(pname), newname)
+        body.insert(1, '\n    let %s = %s;' % (pname, newname))
+        info['rules']['R10'] = info['rules'].get('R10', 0) + 1
 
     if 'arm' in h:
         # append the fall-through value before the closing brace
